@@ -226,6 +226,18 @@ pub fn gen(tier: &str, seed: u64, out: &mut dyn FnMut(Value)) {
     for t in ["name: [\n", "name: 'x\n", "name: \"x\n", "name: {a: b\n", "---\nname: r\n---\nname: [\n", "? $a\n", "name: r\nmatches: {\n", "- [\n", "\t\n", "%YAML 9.9\n---\n", "name: &a [*a\n", "name: !!binary =\n"] {
         out(json!({"op": "load_text", "rules": t, "tag": "truncated YAML", "nt": true}));
     }
+    // aliases: to an anchor of the same document (fine), of an earlier document, of no document at all, in every position
+    // a value can take - a reader must come back with rules or an error, whatever the YAML library does after it
+    // reported an error
+    for t in [
+        "name: *x\n", "name: a\ncondition: *c\n", "name: a\nmeta: {tags: [ *t ]}\n", "name: &a x\n---\nname: *a\n", "name: a\nactions: [*t]\n", "*x\n", "- *x\n",
+        "name: [*x]\n", "a: *x\nb: c\n", "name: a\nmatches: {$a: *m}\n", "name: a\nmatches:\n  $a: *m\n", "name: a\nmatch-on: {events: {s: [*i]}}\n", "name: a\nparams: *p\n",
+        "name: &n a\nactions: [*n]\n", "name: &n a\nmeta: {tags: [*n, *n]}\ncondition: *n\n", "name: a\nmeta: &m {tags: [x]}\n---\nname: b\nmeta: *m\n", "name: a\n---\nname: *x\n---\nname: c\n",
+        "? *k\n: v\n", "name: a\n*k : v\n", "name: a\nseverity: *s\n", "name: a\ntype: *t\n", "&a [*a]\n", "name: &a [*a]\n",
+    ] {
+        out(json!({"op": "load_text", "rules": t, "tag": "aliases, defined or not", "nt": true}));
+        out(json!({"op": "load_text", "templates": t, "rules": "---\nname: r\n", "tag": "aliases, defined or not (template document)", "nt": true}));
+    }
     // template documents
     let tdocs = [
         "a: b\n", "a: b\na: c\n", "---\na: b\n---\na: c\n", "- a\n- b\n", "a: [1, 2]\n", "a: {b: c}\n", "5: 6\n", "a: null\n", "~: x\n", "", "---\n---\n",
